@@ -40,6 +40,7 @@ type Scenario struct {
 	BodyMax     int
 	SampleRate  int
 	Vanish      bool // a consumer stops reading mid-stream: the daemon's write to it fails (C01)
+	Starve      bool // one channel has a timeout on every scan tick while it also holds deferred messages (C04 "soon after")
 	RdyZero     bool // an idle consumer lowers RDY / CLS / its channel is paused, long before the next publish (C03)
 }
 
@@ -112,6 +113,10 @@ func genScenario(mode string, seed int64) Scenario {
 		s.MaxMsgTmo = s.MsgTimeout*2 + time.Duration(r.Intn(100))*time.Millisecond
 		s.MaxReqTmo = time.Duration(150+r.Intn(150)) * time.Millisecond
 		s.NMsg = 10 + r.Intn(12)
+		s.Starve = r.Intn(3) == 0
+		if s.Starve {
+			s.MsgTimeout, s.MaxMsgTmo, s.MaxReqTmo = 200*time.Millisecond, 600*time.Millisecond, 300*time.Millisecond
+		}
 	case "bytes":
 		s.BodyMax = []int{300, 20000, 70000}[r.Intn(3)]
 		s.NMsg = 4 + r.Intn(5)
@@ -667,6 +672,13 @@ func (r *Run) nodeOpts(o *nsqd.Options) {
 		o.TLSKey = repoDir() + "/nsqd/test/certs/server.key"
 	}
 	o.MaxMsgSize = int64(r.maxMsgSize())
+	if r.sc.Starve {
+		// a coarser scan tick keeps the expiry phases of the starving channel apart for the whole step
+		o.QueueScanInterval = 50 * time.Millisecond
+		o.MsgTimeout = 200 * time.Millisecond
+		o.MaxMsgTimeout = 600 * time.Millisecond
+		o.MaxReqTimeout = 300 * time.Millisecond
+	}
 	if r.sc.Vanish {
 		o.MaxMsgSize = 8 << 20 // the stalled-consumer step publishes one message larger than any socket buffer
 	}
